@@ -54,6 +54,7 @@ namespace {
 
 namespace bxdecay0 {
 
+#ifndef HX_REAL_BETA
   void decay0_beta(i_random &, event & ev, double Q, double Z, double tc, double th, double & td)
   {
     int o = push(hx::K_BETA, {Q, Z, tc, th}, {}, SITE);
@@ -74,6 +75,8 @@ namespace bxdecay0 {
     int o = push(hx::K_BETA_1FU, {Q, Z, tc, th, c1, c2, c3, c4}, {}, SITE);
     finish(ev, 99, o, 1, tc, td, true);
   }
+#endif
+#ifndef HX_REAL_NTK
   void decay0_nucltransK(i_random &, event & ev, const double E, const double Eb, const double ce, const double cp, const double tc, const double th, double & td)
   {
     int o = push(hx::K_NTK, {E, Eb, ce, cp, tc, th}, {}, SITE);
@@ -97,6 +100,8 @@ namespace bxdecay0 {
     int o = push(hx::K_NTKLM_PB, {E, EbK, ceK, EbL, ceL, EbM, ceM, cp, tc, th}, {}, SITE);
     finish(ev, 99, o, 1, tc, td, false);
   }
+#endif
+#ifndef HX_REAL_PARTICLES
   void decay0_gamma(i_random &, event & ev, double E, double tc, double th, double & td)
   {
     int o = push(hx::K_GAMMA, {E, tc, th}, {}, SITE);
@@ -122,6 +127,7 @@ namespace bxdecay0 {
     int o = push(hx::K_PAIR, {E, tc, th}, {}, SITE);
     finish(ev, 98, o, 2, tc, td, false);
   }
+#endif
 #ifndef HX_REAL_PBATSHELL
   void PbAtShell(i_random &, event & ev, const int KLM, const double tc, const double th, double & td)
   {
